@@ -1665,6 +1665,8 @@ def _drop_disc(system, k):
 
 
 def _prune_quad(d, keep) -> None:
+    if "Q" in d and not d["Q"]:
+        d.pop("Q")
     if d.get("Q"):
         d["Q"] = {o: [t for t in terms if keep(t)] for o, terms in d["Q"].items()}
         d["Q"] = {o: terms for o, terms in d["Q"].items() if terms}
@@ -2280,6 +2282,65 @@ def model_answers(request) -> dict[tuple[int, int], str]:
     return {ix: by_line[ln] for ix, ln in zip(index, lines)}
 
 
+class AsyncModel:
+    """The Lean driver on the lines of a batch, started as a plain sub-process whose standard streams are FILES
+    (no thread in the harness process, no pipe: GEMSEO forks worker processes for its parallel executions, a
+    forked copy of a pipe end or of a lock held by another thread would block the driver / the worker for ever).
+    The model must have been built (run() builds it first)."""
+
+    def __init__(self, request) -> None:
+        import subprocess
+        import tempfile
+
+        self.request = request
+        self.proc = None
+        unique = request[2]
+        if not unique:
+            return
+        if any("\n" in ln for ln in unique):
+            raise ValueError("protocol line contains a newline")
+        self.dir = tempfile.mkdtemp(prefix="c07-driver-")
+        with open(os.path.join(self.dir, "in"), "w") as fh:
+            fh.write("\n".join(unique) + "\n")
+        self.files = [open(os.path.join(self.dir, "in")), open(os.path.join(self.dir, "out"), "w"),
+                      open(os.path.join(self.dir, "err"), "w")]
+        self.proc = subprocess.Popen(["lake", "env", "lean", "--run", f"Driver/{PID}.lean"], cwd=common.LEAN_DIR,
+                                     stdin=self.files[0], stdout=self.files[1], stderr=self.files[2])
+
+    def result(self) -> dict[tuple[int, int], str]:
+        import shutil
+
+        index, lines, unique = self.request
+        if self.proc is None:
+            return {}
+        try:
+            rc = self.proc.wait(timeout=3600)
+            for fh in self.files:
+                fh.close()
+            out = open(os.path.join(self.dir, "out")).read().splitlines()
+            err = open(os.path.join(self.dir, "err")).read()
+        finally:
+            self.cancel()
+        if rc != 0:
+            raise RuntimeError("lean driver failed:\n" + err[-3000:])
+        if len(out) != len(unique):
+            raise RuntimeError(f"lean driver returned {len(out)} answers for {len(unique)} lines\n{err[-2000:]}")
+        by_line = dict(zip(unique, out))
+        return {ix: by_line[ln] for ix, ln in zip(index, lines)}
+
+    def cancel(self) -> None:
+        import shutil
+
+        if self.proc is not None:
+            if self.proc.poll() is None:
+                self.proc.kill()
+                self.proc.wait()
+            for fh in self.files:
+                fh.close()
+            shutil.rmtree(self.dir, ignore_errors=True)
+            self.proc = None
+
+
 def check_cases(res: Result, cases: list[dict[str, Any]], use_lean: bool, in_scope_stream: bool = True, model=None) -> None:
     if use_lean and model is None:
         model = model_answers(model_request(cases))
@@ -2318,6 +2379,12 @@ def check_cases(res: Result, cases: list[dict[str, Any]], use_lean: bool, in_sco
                 {"case": small, "failing_step": len(small["steps"]) - 1,
                  "bound": "2^-30 * max(scale of the block, |exact|), scale = 2^(e_f - e_x) (1 without rescaling)"},
             )
+        if use_lean and (case.get("free") or case.get("default_sizes")):
+            # `compute_sizes` (Driver `sz`): judged at the end of the run (check_sizes), one driver call
+            for si, st in enumerate(case["steps"]):
+                ln = sz_line(system, st, observations[si])
+                if ln is not None:
+                    _SZ_ITEMS.append((case, si, ln, dict(observations[si]["sizes"]), bool(real)))
         if use_lean:
             probe_steps = {k for k, key, _ in failures if key.startswith("probe:")}
             for si, st in enumerate(case["steps"]):
@@ -2339,6 +2406,51 @@ def check_cases(res: Result, cases: list[dict[str, Any]], use_lean: bool, in_sco
                          "impl": {f"{f}:{x}": v for (f, x), v in observations[si].get("jac", {}).items()} or observations[si].get("exc"),
                          "correspondence": "Driver/C07.lean `td`"},
                     )
+
+
+_SZ_ITEMS: list[tuple[Any, int, str, dict[str, int], bool]] = []
+
+
+def sz_line(system, st, obs) -> str | None:
+    """Protocol line `sz` of a step: the blocks the disciplines hold after the step (observed through
+    `discipline.jac`: names and shapes, discipline order) and the lengths of the values of the design inputs
+    that were passed; None when `JacobianAssembly.sizes` was not observed."""
+    if not obs.get("sizes") or "jac" not in obs or "exc" in (obs.get("store") or {"exc": 1}):
+        return None
+    vs = [v for v in st["variables"] if v in obs["sizes"]]
+    if not vs:
+        return None
+    blocks = []
+    for (o, i), rows in obs["store"]["jac"].items():
+        if not rows or not rows[0]:
+            return None
+        blocks.append(f"B={o}:{i}:" + ";".join(",".join("0" for _ in r) for r in rows))
+    xs = ",".join(f"{x}:{system['sizes'][x]}" for x in design_inputs(system))
+    return " ".join(["sz", "V=" + _names(vs), "X=" + (xs or "[]"), *blocks])
+
+
+def check_sizes(res: Result) -> None:
+    """Correspondence of `JacobianAssembly.sizes` with the model's `variableSize` (one driver call)."""
+    items, _SZ_ITEMS[:] = list(_SZ_ITEMS), []
+    if not items:
+        return
+    answers = common.run_lean_driver(PID, [it[2] for it in items])
+    for (case, si, ln, seen, real), ans in zip(items, answers):
+        st = case["steps"][si]
+        vs = [v for v in st["variables"] if v in seen]
+        got = ",".join(str(seen[v]) for v in vs)
+        res.count("sizes:compared-with-the-model")
+        if ans == got:
+            res.traces_validated += 1
+            continue
+        res.disagreements += 1
+        if real or any(v.kind == "correspondence" and v.key == "model-vs-impl:sizes" for v in res.violations):
+            continue
+        res.violate(
+            "correspondence", "model-vs-impl:sizes",
+            f"JacobianAssembly.sizes of {vs} = {got}, the Lean model (variableSize) answers {ans}",
+            {"case": case, "step": si, "protocol_line": ln, "model": ans, "impl": got, "correspondence": "Driver/C07.lean `sz`"},
+        )
 
 
 def neighbours(case):
@@ -2486,6 +2598,7 @@ def run(ctx) -> Result:
         "of wall clock is skipped too (counted, never judged)",
     ]
     use_lean = ctx.audit is not None or os.environ.get("C07_FORCE_LEAN") == "1"
+    _SZ_ITEMS[:] = []
     rng = ctx.rng
     corpus = load_corpus()
     check_cases(res, [c for c in corpus if "steps" in c], use_lean)
@@ -2517,13 +2630,13 @@ def run(ctx) -> Result:
             asm_items.append((system, gen_kinds(rng, system), gen_asm(rng, system)))
     cases = [c for c in cases if c["steps"] and _valid_case(c)]
     batch = 40
-    # the model answers of the next batch are computed (Lean driver, a sub-process) while the implementation
-    # runs the current one
-    from concurrent.futures import ThreadPoolExecutor
-
+    # the model answers of the next batch are computed (Lean driver, a sub-process reading and writing files)
+    # while the implementation runs the current one
     starts = list(range(0, len(cases), batch))
-    with ThreadPoolExecutor(max_workers=1) as pool:
-        fut = pool.submit(model_answers, model_request(cases[:batch])) if use_lean and starts else None
+    if use_lean:
+        common.run_lean_driver(PID, ["mc F=[] V=[] R=[] D=[]"])  # builds the model when needed
+    fut = AsyncModel(model_request(cases[:batch])) if use_lean and starts else None
+    try:
         for n, i in enumerate(starts):
             if time.time() > ctx.deadline:
                 res.notes.append(f"deadline reached after {i} cases")
@@ -2531,12 +2644,17 @@ def run(ctx) -> Result:
             model = fut.result() if fut is not None else None
             fut = None
             if use_lean and n + 1 < len(starts):
-                fut = pool.submit(model_answers, model_request(cases[starts[n + 1] : starts[n + 1] + batch]))
+                fut = AsyncModel(model_request(cases[starts[n + 1] : starts[n + 1] + batch]))
             check_cases(res, cases[i : i + batch], use_lean, model=model)
             if len([v for v in res.violations if v.kind == "oracle"]) >= 4:
                 res.notes.append(f"stopped after {i + batch} cases: 4 distinct oracle violations already have a replay")
                 break
+    finally:
+        if fut is not None:
+            fut.cancel()
     check_asm(res, asm_items, use_lean)
+    if use_lean:
+        check_sizes(res)
     res.extra["max_operator_applications_per_step"] = dict(c07_limits.STATE.max_by_tag)
     res.extra["operator_application_limit"] = WORK_LIMIT
     return res
